@@ -31,3 +31,27 @@ def build(kind, x):
     if kind == "report":
         return getattr(me, STATE["cls"])(x)
     return me.Pair(x) if STATE["pair_args"] == 1 else me.Pair(x, "b")
+
+
+class Flaky:
+    """a value whose pickling fails while FAIL[0] is set (a result that can be stored at one time and not at another)"""
+
+    FAIL = [False]
+
+    def __init__(self, v):
+        self.v = v
+
+    def __eq__(self, o):
+        return isinstance(o, Flaky) and o.v == self.v
+
+    def __hash__(self):
+        return hash(("Flaky", self.v))
+
+    def __repr__(self):
+        return f"Flaky({self.v!r})"
+
+    def __reduce__(self):
+        if Flaky.FAIL[0]:
+            import pickle
+            raise pickle.PicklingError("this value cannot be pickled right now")
+        return (Flaky, (self.v,))
